@@ -38,9 +38,6 @@ structure Live where
   src : Nat
   fam : Fam
   inherited : Bool
-  /-- a purge of this peer's paths was requested without handing over this session's counter
-      (what the daemon's `drop_stale_families` / `mark_llgr_stale` / `drop_llgr_stale_families` do) -/
-  purgedWithoutCtr : Bool := false
   deriving DecidableEq, Repr
 
 structure St where
@@ -69,6 +66,14 @@ def deactivate (c : Case) (live : List Live) (addr : Nat) (f : Fam) : List Live 
 def deadStep (c : Case) (st : St) : Op → List (Nat × Fam)
   | .drop a f | .restale a f | .restaleLlgr a f =>
       ((st.live.filter fun l => l.fam = f && addrOf c l.src == some a).map fun l => (l.src, l.fam)) ++ st.dead
+  -- a purge that is not handed a counter (what the daemon's `drop_stale_families` / `mark_llgr_stale` /
+  -- `drop_llgr_stale_families` do: no session of the peer is counting then) ends the judgement of the
+  -- peer's counters in the family
+  | .dropStale a f ctr | .dropLlgr a f ctr | .dropNoLlgr a f ctr =>
+      match ctr.bind (c.srcs[·]?) with
+      | some _ => st.dead
+      | none =>
+        ((st.live.filter fun l => l.fam = f && addrOf c l.src == some a).map fun l => (l.src, l.fam)) ++ st.dead
   | _ => st.dead
 
 def liveStep (c : Case) (st : St) : Op → List Live
@@ -77,8 +82,7 @@ def liveStep (c : Case) (st : St) : Op → List Live
   | .dropStale a f ctr | .dropLlgr a f ctr | .dropNoLlgr a f ctr =>
       match ctr.bind (c.srcs[·]?) with
       | some s => activate c st s f
-      | none => st.live.map fun l =>
-          if l.fam = f && addrOf c l.src == some a then { l with purgedWithoutCtr := true } else l
+      | none => deactivate c st.live a f
   | .drop a f => deactivate c st.live a f
   | .restale a f => deactivate c st.live a f
   | .restaleLlgr a f => deactivate c st.live a f
@@ -102,7 +106,6 @@ def firstSome {α} (f : α → Option String) : List α → Option String
 
 def cls (l : Live) : String :=
   if l.inherited then "inherited-stale-paths"
-  else if l.purgedWithoutCtr then "purge-without-counter"
   else "plain"
 
 def opName : Op → String
